@@ -288,8 +288,11 @@ def rhs_sorted_like(enc, L, R, lhs):
         return None
 
 
+KEY_AXES = ('jt', 'sortsrc')   # variant axes that select different semantics; parameter sweeps are folded into one finding
+
+
 def inst_key(rule, choice):
-    return rule.key() + '#' + ','.join('%s=%s' % (k, '/'.join(v) if isinstance(v, tuple) else v) for k, v in sorted(choice.items()))
+    return rule.key() + '#' + ','.join('%s=%s' % (k, v) for k, v in sorted(choice.items()) if k in KEY_AXES)
 
 
 class RuleLite:
@@ -347,8 +350,18 @@ def plan_rule_tasks(rule, report, K, thorough):
 
 
 def solve_task(task):
-    """Worker: decide one (lhs instance, real rhs) pair. Returns a plain dict."""
-    rule, lhs, choice, wrap, rhs_txt, K = task
+    """Worker: decide one pair; when the solver gives up at K rows, retry with fewer and report the bound reached."""
+    res = solve_task_at(task, task[5])
+    k = task[5]
+    while res['verdict'] == 'unknown' and k > 2:
+        k -= 1
+        res = solve_task_at(task, k)
+        res['note'] = 'solver gave up at K=%d; decided at K=%d' % (task[5], k)
+    return res
+
+
+def solve_task_at(task, K):
+    rule, lhs, choice, wrap, rhs_txt, _ = task
     rhs = parse(rhs_txt)
     res = {'rule': rule.name, 'key': inst_key(rule, choice), 'text': rule.text(), 'lhs': show(lhs), 'rhs': show(rhs), 'K': K,
            'desc': '%s  [%s]' % (rule.name, ' '.join('%s=%s' % kv for kv in sorted(choice.items())))}
@@ -371,7 +384,7 @@ def solve_task(task):
             g.append(x)
     g += [c for _, c in rreq]
     s = Solver()
-    s.set('timeout', 240000)
+    s.set('timeout', 150000)
     s.add(enc.cons + enc.strlit_constraints() + lreq)
     t0 = time.time()
     if s.check() != sat:
